@@ -49,32 +49,39 @@ def convMeta (m : Option (List MetaKV)) : Option (List (String × String)) :=
   | some [] => none
   | some kvs => some (kvs.map fun kv => (kv.key.str, kv.value.str))
 
-/-- `MetaInstanceModifierImpl.Modify` -/
+/-- `convertBPM` + assignment -/
+def setBPM (m : List (String × String)) (i : Instance) : Except Err Instance :=
+  if metaGet m metaBPMKey = "" then .ok i else
+  match parseUint (metaGet m metaBPMKey).toList with
+  | none => .error .syntax
+  | some u => if u = 0 then .error .invalid else .ok { i with bpm := some u }
+
+/-- `convertVelocity` + assignment -/
+def setVelocity (m : List (String × String)) (i : Instance) : Except Err Instance :=
+  if metaGet m metaVelocityKey = "" then .ok i else
+  match Dyn.ofString (metaGet m metaVelocityKey) with
+  | .unknown => .error .invalid
+  | d => .ok { i with velocity := some d }
+
+/-- `convertMeter` + assignment -/
+def setMeter (m : List (String × String)) (i : Instance) : Except Err Instance :=
+  if metaGet m metaMeterKey = "" then .ok i else
+  match parseRat (metaGet m metaMeterKey).toList with
+  | none => .error .syntax
+  | some r => if r.valid then .ok { i with meter := some r } else .error .invalid
+
+/-- `convertKey` + assignment -/
+def setKey (m : List (String × String)) (i : Instance) : Except Err Instance :=
+  if metaGet m metaKeyKey = "" then .ok i else
+  match parseKey (metaGet m metaKeyKey).toList with
+  | none => .error .invalid
+  | some k => .ok { i with key := some k }
+
+/-- `MetaInstanceModifierImpl.Modify`: bpm, velocity, meter, key in this order; the first failure is returned -/
 def modifyMeta (i : Instance) (m : Option (List (String × String))) : Except Err Instance :=
   match m with
   | none => .ok i
-  | some m => do
-    let i ← (let s := metaGet m metaBPMKey
-      if s = "" then pure i else
-      match parseUint s.toList with
-      | none => throw .syntax
-      | some u => if u = 0 then throw .invalid else pure { i with bpm := some u })
-    let i ← (let s := metaGet m metaVelocityKey
-      if s = "" then pure i else
-      match Dyn.ofString s with
-      | .unknown => throw .invalid
-      | d => pure { i with velocity := some d })
-    let i ← (let s := metaGet m metaMeterKey
-      if s = "" then pure i else
-      match parseRat s.toList with
-      | none => throw .syntax
-      | some r => if r.valid then pure { i with meter := some r } else throw .invalid)
-    let i ← (let s := metaGet m metaKeyKey
-      if s = "" then pure i else
-      match parseKey s.toList with
-      | none => throw .invalid
-      | some k => pure { i with key := some k })
-    pure i
+  | some m => (((setBPM m i).bind (setVelocity m)).bind (setMeter m)).bind (setKey m)
 
 /-! ## values -/
 
@@ -153,21 +160,23 @@ def convChord (mode : Mode) (s : Scale) (root : DegreeN) (sym : Option Tok) (bas
       | some b => do let x ← convDegreeText b; pure (some x)
     pure ⟨d, (sym.map Tok.str).getD "", b⟩
 
+def Item.mta : Item → Option (List MetaKV) | .chord _ _ _ _ m => m | .rest _ m => m
+def Item.vals : Item → List ValueN | .chord _ _ _ v _ => v | .rest v _ => v
+
+/-- `ASTConverter.changeScale`: only the syllable converter is `ScaleChangeable` -/
+def changeScale (mode : Mode) (s : Scale) (i : Instance) : Except Err Scale :=
+  match i.key, mode with
+  | some k, .syllable => (match newScale k with | some sc => .ok sc | none => .error .notFound)
+  | _, _ => .ok s
+
 /-- `ASTConverter.Convert` for one item; returns the instance and the scale in force afterwards -/
-def convItem (mode : Mode) (s : Scale) (it : Item) : Except Err (Instance × Scale) := do
-  let (m, vals) := match it with | .chord _ _ _ v m => (m, v) | .rest v m => (m, v)
-  let mta := convMeta m
-  let i ← modifyMeta { mta := mta } mta
-  -- changeScale: only the syllable converter is ScaleChangeable
-  let s' ← match i.key, mode with
-    | some k, .syllable => (match newScale k with | some sc => pure sc | none => throw .notFound)
-    | _, _ => pure s
-  let vs ← convValues vals
+def convItem (mode : Mode) (s : Scale) (it : Item) : Except Err (Instance × Scale) :=
+  (modifyMeta { mta := convMeta it.mta } (convMeta it.mta)).bind fun i =>
+  (changeScale mode s i).bind fun s' =>
+  (convValues it.vals).bind fun vs =>
   match it with
-  | .chord d sym b _ _ => do
-    let c ← convChord mode s' d sym b
-    pure ({ i with values := vs, chord := some c }, s')
-  | .rest _ _ => pure ({ i with values := vs }, s')
+  | .chord d sym b _ _ => (convChord mode s' d sym b).bind fun c => .ok ({ i with values := vs, chord := some c }, s')
+  | .rest _ _ => .ok ({ i with values := vs }, s')
 
 def convItems (mode : Mode) : Scale → List Item → Except Err (List Instance)
   | _, [] => .ok []
